@@ -26,7 +26,7 @@ class Prop:
             "reference (the previous inner must also have been unsubscribed - or have terminated - before the next one is subscribed, in that "
             "order within one instant); reference: an inner element is forwarded only while its inner is the latest, the previous inner is unsubscribed when the "
             "next arrives, completion only after the outer and the latest inner completed. Scenarios with a same-instant tie between two "
-            "sources are only checked for the grammar. Distinct = (form, output); non-trivial = two notifications and two inner "
+            "sources are only checked for the grammar. One hot outer in five has a consumer that answers an element by pushing the next inner into the outer from inside its handler (the switch then happens while the current inner is still delivering, possibly inside its own subscribe()). Distinct = (form, output); non-trivial = two notifications and two inner "
             "subscriptions.")
     assumptions = ["tie policy for same-instant events of different sources"]
     stubs = []
@@ -41,6 +41,7 @@ class Prop:
         off = rng.choice([None, None, None, 37, 123, 411])
         if off:
             sc["sub2_t"] = 205 + off
+        multi.gen_feedback(rng, sc, outer, p=0.2)  # a consumer that answers an element by pushing the next inner into the (hot) outer
         return sc
 
     def build(self, w, sc):
@@ -69,7 +70,9 @@ class Prop:
         w, rec, eng = r
         out.digest = (sc["form"], tuple(repr(e) for e in eng.out[:10]))
         nsubs = sum(len(w.sources[s].subs) for s in sc["inners"])
-        if sc.get("sub2_t") is None and not out.viol:
+        if sc.get("feedback"):
+            out.probes["feedback_consumer"] += 1
+        if sc.get("sub2_t") is None and not out.viol and not sc.get("feedback"):  # (an inner that is switched away from inside its own subscribe() cannot have been unsubscribed yet)
             # "unsubscribe the previous inner as soon as a new inner arrives": when an inner is subscribed, the one before it has
             # been let go (unsubscribed, or it had terminated) - in this order, also within one virtual instant
             subs = sorted((x for s in set(sc["inners"]) for x in w.sources[s].subs), key=lambda x: x.sub_seq)
